@@ -881,6 +881,10 @@ pub(crate) fn eval_tests(
     }
 
     for test in test_defs {
+        // Every test gets the whole tick budget, so its verdict does
+        // not depend on which tests ran before it.
+        env.ticks = 0;
+
         push_test_stackframe(test, env);
 
         match eval(env, session) {
